@@ -104,7 +104,7 @@ def l1_chunk(args):
             bad.append(("no-region", cl, "split_coverage_regions returned [] for region %s: every alignment of the cluster is dropped" % (region,)))
             continue
         # tiling
-        ok = regs[0][0] <= region[0] + 1 and regs[-1][1] >= region[1] and all(regs[i][1] + 1 >= regs[i + 1][0] for i in range(len(regs) - 1)) \
+        ok = regs[0][0] <= region[0] and regs[-1][1] >= region[1] and all(regs[i][1] + 1 >= regs[i + 1][0] for i in range(len(regs) - 1)) \
             and all(a <= b for a, b in regs)
         if not ok:
             bad.append(("not-tiling", cl, "regions %s do not cover cluster interval %s" % (regs, region)))
@@ -476,8 +476,8 @@ def placement_jobs(ctx):
 def run(ctx):
     quick = ctx.tier == "quick"
     k = 3 if quick else 4
-    cls = clusters(k, 20 if quick else 24, (2, 5, 9, 18))
-    ctx.note("L1: %d clusters of <=%d alignments (start<=%d, lengths 2/5/9/18), x constants sets" % (len(cls), k, 20 if quick else 24))
+    cls = clusters(k, 20 if quick else 24, (1, 2, 5, 9, 18))
+    ctx.note("L1: %d clusters of <=%d alignments (start<=%d, lengths 1/2/5/9/18), x constants sets" % (len(cls), k, 20 if quick else 24))
     consts = [{"bin": 4, "maxlen": 16, "minreads": 3, "valley": 0.01}, {"bin": 4, "maxlen": 16, "minreads": 3, "valley": 0.5},
               {"bin": 4, "maxlen": 32, "minreads": 2, "valley": 0.5}]
     ctx.rng.shuffle(cls)
